@@ -43,6 +43,9 @@ func Read(fd io.Reader) (*Metrics, error) {
 	kernPairs := false
 	scanner := bufio.NewScanner(fd)
 	scanner.Split(scanLines)
+	// the default limit of 64 KiB per line is too small for long notices
+	// and for glyphs with many ligatures
+	scanner.Buffer(nil, maxLineLength)
 	for scanner.Scan() {
 		line := scanner.Text()
 		if strings.HasPrefix(line, "EndCharMetrics") {
@@ -209,6 +212,9 @@ func Read(fd io.Reader) (*Metrics, error) {
 
 	return res, nil
 }
+
+// maxLineLength is the maximal length of a line in an AFM file.
+const maxLineLength = 1 << 24
 
 // scanLines is a split function for a [bufio.Scanner] which returns the
 // lines of the input, without the end-of-line markers.  Lines can end in
